@@ -5,6 +5,7 @@
 // elements are read), values are distinct powers of two so that -2 * x is exact.  Bounded: m = 0..5.
 //@harness name=hole_pq_contract_m5 tier=quick label=bounded(m=5,concrete-values) props=C13 timeout=600
 //@harness name=hole_pq_contract_m4_m1_m0 tier=quick label=bounded(m=4,1,0,concrete-values) props=C13 timeout=600
+//@harness name=lsp2lpc_is_the_product_of_the_lsp_factors tier=quick label=bounded(orders-2..5,concrete-exact-values,cos-stubbed) props=C13 timeout=900
 use super::*;
 
 fn id_cos(x: f64) -> f64 { x }
@@ -38,5 +39,26 @@ fn hole_pq_contract_m4_m1_m0() {
     assert!(p1.len() == 1 && p1[0] == -2.0 && q1.len() == 0);
     let (p0, q0) = tables(&v[..0]);
     assert!(p0.len() == 0 && q0.len() == 0);
+    kani::cover!(true);
+}
+
+/// API-level counterpart of the Verus contract, straight from the property: A(z) = (P(z) + Q(z)) / 2 where P and Q
+/// are the products of the factors 1 - 2cos(w_i) z^-1 + z^-2 over the odd- / even-numbered frequencies, times
+/// (1 + z^-1) and (1 - z^-1) for an even order, times 1 and (1 - z^-2) for an odd order.  cos is the identity here
+/// and w = 0.5, 1.0, 1.5, .. so that every coefficient is a small dyadic rational and the comparison is exact;
+/// the expected values were obtained by polynomial multiplication over the rationals.  The gain entry (7.0) must
+/// not influence the polynomial.
+#[kani::proof]
+#[kani::unwind(8)]
+#[kani::stub(f64::cos, id_cos)]
+fn lsp2lpc_is_the_product_of_the_lsp_factors() {
+    let l2 = LineSpectralPairs::new(&[7.0, 0.5, 1.0], 0.0, false, 1, -1.0).lsp2lpc();
+    assert!(l2.len() == 3 && l2[0] == 1.0 && l2[1] == -1.5 && l2[2] == 1.5);
+    let l3 = LineSpectralPairs::new(&[7.0, 0.5, 1.0, 1.5], 0.0, false, 1, -1.0).lsp2lpc();
+    assert!(l3.len() == 4 && l3[0] == 1.0 && l3[1] == -3.0 && l3[2] == 2.5 && l3[3] == -1.0);
+    let l4 = LineSpectralPairs::new(&[7.0, 0.5, 1.0, 1.5, 2.0], 0.0, false, 1, -1.0).lsp2lpc();
+    assert!(l4.len() == 5 && l4[0] == 1.0 && l4[1] == -5.0 && l4[2] == 8.5 && l4[3] == -7.5 && l4[4] == 2.0);
+    let l5 = LineSpectralPairs::new(&[7.0, 0.5, 1.0, 1.5, 2.0, 2.5], 0.0, false, 1, -1.0).lsp2lpc();
+    assert!(l5.len() == 6 && l5[0] == 1.0 && l5[1] == -7.5 && l5[2] == 17.5 && l5[3] == -16.5 && l5[4] == 8.5 && l5[5] == -1.5);
     kani::cover!(true);
 }
